@@ -307,7 +307,24 @@ def cpp_driver(ns, protos):
                 o.append("      else if (t[0] == 'r' && i == %d) { int32_t v; bool b = r.Read%s(v); std::printf(\"ok:%%d\\n\", b ? 1 : 0); }\n" % (i, steps[i]))
                 o.append("      else if (t[0] == 'B' && i == %d) { std::vector<int32_t> v; v.reserve(arg); bool b = r.Read%s(v); std::printf(\"ok:%%d:%%zu\\n\", b ? 1 : 0, v.size()); }\n" % (i, steps[i]))
         o.append('      else { std::printf("throw:no-such-method\\n"); return; }\n    } catch (std::exception const& e) { std::printf("throw\\n"); return; }\n  }\n}\n')
-    o.append("int main() {\n  std::string line;\n  while (std::getline(std::cin, line)) {\n    std::istringstream ss(line); std::string proto, role, ks; ss >> proto >> role >> ks;\n"
+    o.append('#include "binary/protocols.h"\n')
+    for name, pat, steps in protos:
+        if name.startswith("SmBig"):
+            continue
+        o.append("static int run_real_%s(std::vector<std::string> const& seq) {\n  try {\n    %s::binary::%sWriter w(std::cout);\n    int32_t n = 100;\n    for (auto const& t : seq) {\n"
+                 "      std::string a = t.substr(1); size_t c = a.find(':'); int i = t == \"c\" ? -1 : std::stoi(a.substr(0, c)); int arg = c == std::string::npos ? 0 : std::stoi(a.substr(c + 1)); (void)arg;\n"
+                 "      if (t == \"c\") { w.Close(); }\n" % (name, ns, name))
+        for i, ch in enumerate(pat):
+            o.append("      else if (t[0] == 'w' && i == %d) { w.Write%s(n++); }\n" % (i, steps[i]))
+            if ch == "s":
+                o.append("      else if (t[0] == 'b' && i == %d) { std::vector<int32_t> v; for (int k = 0; k < arg; k++) v.push_back(n++); w.Write%s(v); }\n" % (i, steps[i]))
+                o.append("      else if (t[0] == 'e' && i == %d) { w.End%s(); }\n" % (i, steps[i]))
+        o.append('    }\n  } catch (std::exception const& e) { std::cout.flush(); std::cerr << "DRIVER-ERROR: " << e.what() << "\\n"; return 3; }\n  return 0;\n}\n')
+    o.append("int main(int argc, char** argv) {\n  if (argc > 2 && std::string(argv[1]) == \"--real\") {\n    std::vector<std::string> seq(argv + 3, argv + argc);\n")
+    for name, pat, steps in protos:
+        if not name.startswith("SmBig"):
+            o.append('    if (std::string(argv[2]) == "%s") return run_real_%s(seq);\n' % (name, name))
+    o.append("    return 64;\n  }\n  std::string line;\n  while (std::getline(std::cin, line)) {\n    std::istringstream ss(line); std::string proto, role, ks; ss >> proto >> role >> ks;\n"
              "    g_k.clear(); { std::stringstream kk(ks); std::string x; while (std::getline(kk, x, ',')) if (!x.empty() && x != \"-\") g_k.push_back(std::stoi(x)); }\n"
              "    std::vector<std::string> seq; std::string t; while (ss >> t) seq.push_back(t);\n    std::printf(\"#\\n\");\n")
     for name, pat, steps in protos:
@@ -441,6 +458,55 @@ def run(ctx):
     for j in jobs:
         if j[3] == "py":
             one(j)
+    # ---- the same kind of sequences on the REAL binary writers: what they emit must decode to exactly what was written
+    from vlib.model import Pkg, Proto, P, S
+    from vlib.refcodec import Codec, CodecError
+    src = open(os.path.join(root, "out/cpp/protocols.cc")).read()
+    real_jobs = []
+    for name, pt in shapes:
+        if name.startswith("SmBig") or "s" not in pt or len(pt) > 3:
+            continue
+        hp = Pkg("Sm", [Proto(name, [(chr(97 + i), P("int32") if ch == "v" else S(P("int32"))) for i, ch in enumerate(pt)])])
+        sch = re.search(r'std::string %sWriterBase::schema_ = R"\((.*?)\)";' % name, src, re.S).group(1)
+        r = rng("C07real", name)
+        for rep in range(6 if quick else 30):
+            seq, want, n = [], [], 100
+            for i, ch in enumerate(pt):
+                if ch == "v":
+                    seq.append("w%d" % i); want.append(n); n += 1
+                else:
+                    items = []
+                    for _ in range(r.randint(0, 4)):
+                        if r.random() < 0.5:
+                            seq.append("w%d" % i); items.append(n); n += 1
+                        else:
+                            k = r.choice([0, 0, 1, 2, 3])
+                            seq.append("b%d:%d" % (i, k)); items += list(range(n, n + k)); n += k
+                    seq.append("e%d" % i)
+                    want.append(items)
+            seq.append("c")
+            real_jobs.append((name, hp, sch, seq, want))
+
+    def real(job):
+        name, hp, sch, seq, want = job
+        pr = common.run([exe, "--real", name] + seq)
+        ctx.ev()
+        ctx.count("real-binary-writer")
+        ctx.case(("real", name, tuple(seq)))
+        what = "real binary writer %s, in-order sequence %s" % (name, seq)
+        if pr.rc != 0 or pr.sig is not None:
+            ctx.violation("rejected-in-order:cpp:real-writer", "%s raised: %s" % (what, pr.stderr[-200:]), {"sequence": seq})
+            return
+        try:
+            d = Codec(hp).decode_stream(hp.find(name), pr.out)
+        except (CodecError, UnicodeDecodeError) as e:
+            ctx.violation("real-writer:undecodable:%s" % ("empty-batch" if any(t.endswith(":0") for t in seq) else "other"),
+                          "%s: the emitted stream does not decode under the published format: %s" % (what, e), {"sequence": seq, "bytes": pr.out[-60:]})
+            return
+        if d["values"] != want or d["end"] != len(pr.out):
+            ctx.violation("real-writer:values:%s" % ("empty-batch" if any(t.endswith(":0") for t in seq) else "other"),
+                          "%s: decoded %s, written %s" % (what, d["values"], want), {"sequence": seq})
+    pmap(real, real_jobs)
     worker.close()
     ctx.sample({"patterns": pats[:6], "example_sequences": [list(s) for s in sequences("vs", "w", "cpp", [0, 0], rng("x"), 0)[:6]]})
     ctx.sample({"python_alphabet_for_vs_reader": alphabet("vs", "r", "py")})
